@@ -21,7 +21,8 @@ QUICK = [("exprfull", "G_exprfull.cfg", 2, 150), ("expr3", "G_expr3.cfg", 1, 300
          ("stmt1", "G_stmt1.cfg", 2, 100), ("stmt2", "G_stmt2.cfg", 2, 100), ("asi", "G_asi.cfg", 1, 400), ("asi3", "G_asi3.cfg", 2, 50),
          ("bind", "G_bind.cfg", 2, 100), ("bind3", "G_bind3.cfg", 1, 300), ("arrowpat", "G_arrowpat.cfg", 1, 200), ("asgpat", "G_asgpat.cfg", 2, 100),
          ("asgpat2", "G_asgpat2.cfg", 2, 100), ("class", "G_class.cfg", 2, 100), ("classbody", "G_classbody.cfg", 2, 100),
-         ("classasi", "G_classasi.cfg", 2, 20), ("forin", "G_forin.cfg", 1, 300), ("forinpat", "G_forinpat.cfg", 2, 100)]
+         ("classasi", "G_classasi.cfg", 2, 20), ("forin", "G_forin.cfg", 1, 300), ("forinpat", "G_forinpat.cfg", 2, 100),
+         ("forlhs", "G_forlhs.cfg", 2, 50)]
 THOROUGH = [("expr4", "T_expr4.cfg", 1, 1000), ("expr3b", "T_expr3b.cfg", 1, 1000), ("stmt3", "T_stmt3.cfg", 1, 1000), ("asi4", "T_asi4.cfg", 1, 2000),
             ("bind4", "T_bind4.cfg", 1, 500)]
 CONSTANTS = {
@@ -35,6 +36,7 @@ CONSTANTS = {
     "G_bind": "binding patterns (<= 2 pattern nodes) in every binding context", "G_bind3": "patterns with <= 4 pattern nodes in a let declaration",
     "G_arrowpat": "arrow parameters through the cover grammar with computed keys and defaults", "G_asgpat": "destructuring assignment targets", "G_asgpat2": "nested ones",
     "G_forin": "the [In] parameter: `in` bare and inside every kind of bracket in the head of a for statement", "G_forinpat": "`in` inside binding patterns of for heads",
+    "G_forlhs": "expression left sides of for-in / for-of (member chains on function/class expressions incl. async, patterns)",
     "G_class": "class declarations: every element kind pairwise, heritage", "G_classbody": "statements in methods, private names, static blocks", "G_classasi": "class field terminators",
     "G_neg": "assignment to a binary expression, lexical redeclaration pairs, parentheses whose removal gives -a**b or ?? mixed with ||/&&",
     "T_expr4": "<= 4 operator nodes over nine operators", "T_expr3b": "<= 3 operator nodes over the other representatives of each level",
@@ -122,7 +124,7 @@ def detectors(o, evs):
     etext = " ".join((x.get("etext") or "") for x in evs[1:])
     if re.search(r"yield\s*\}(t`|m\$\{)", src) and "unexpected }" in etext:
         out.append("yield-before-template-continuation")
-    if re.search(r"for\s*\(\s*async\b", src) and "expected ; instead of )" in etext:
+    if re.search(r"for\s*\(\s*async\b", src) and "forin:e" in (o.get("ops") or []):
         out.append("for-in/left-side-starting-with-async")
     roots = tree_of(o)
     for r in roots:
@@ -239,6 +241,8 @@ def vocab_of(out):
 
 def run(ck):
     thorough = ck.tier == "thorough"
+    import c03climb
+    c03climb.run(ck, thorough)      # design level: the precedence-climbing loop of parse.go equals the ladder grammar (spec/js/JsClimb.tla)
     plan = list(QUICK) + (list(THOROUGH) if thorough else [])
     results = {}
 
